@@ -1,7 +1,7 @@
 """C02 — callVariant never reports an unrealizable peptide (soundness), also under binding
 complexity limits and timeout-driven retries."""
 from . import common, cv_checks
-from .cv_checks import KF_EXC, KF_WIDE
+from .cv_checks import KF_EXC, KF_WIDE, KF_NESTED
 
 
 def judge(ctx, res, stream):
@@ -22,7 +22,8 @@ def judge(ctx, res, stream):
                 f'variant combination, e.g. {sorted(bad)[:3]} (headers '
                 f'{[r["headers"][p] for p in sorted(bad)[:2]]})',
                 cv_checks.replay_of(r, kind='unrealizable', extra=sorted(bad)),
-                finding_key=KF_WIDE if cv_checks.wide_lookahead(r['desc']['kw']['cleavage_rule']) else None)
+                finding_key=KF_WIDE if cv_checks.wide_lookahead(r['desc']['kw']['cleavage_rule'])
+                else (KF_NESTED if cv_checks.has_nested(r) else None))
         elif exc_extra:
             ctx.add_violation(
                 f'peptide(s) {sorted(exc_extra)[:3]} cut at a position the cleavage exception forbids: '
@@ -83,6 +84,15 @@ def run(ctx: common.Ctx):
     res = cv_checks.explore(ctx, ctx.n(100, 2000), dict(base, exception=None, enzymes=enz, stages=True))
     judge(ctx, res, 'lookahead-enzymes')
     cv_checks.judge_checkpoints(ctx, res, 'extra')
+    s3 = dict(ctx.coverage['worker_stats'])
+    res = cv_checks.explore(ctx, ctx.n(240, 5000),
+                            dict(base, exception=None, per_tx=(1, 4), special=['sec', 'sec', 'start', 'stop', 'junction'], sec_near_start=0.6, coding_only=True))
+    judge(ctx, res, 'special-codons')
+    s4 = dict(ctx.coverage['worker_stats'])
+    res = cv_checks.explore(ctx, ctx.n(60, 1500), dict(base, exception=None, per_tx=(1, 4), as_frac=1.0, nested_frac=1.0, stages=True))
+    judge(ctx, res, 'nested-in-splicing')
+    cv_checks.judge_checkpoints(ctx, res, 'extra')
+    s5 = dict(ctx.coverage['worker_stats'])
     for kind, n in (('fusion', ctx.n(90, 1500)), ('circ', ctx.n(90, 1500))):
         bres = cv_checks.explore_backbone(ctx, kind, n, dict(exception=None))
         for r in bres:
@@ -102,7 +112,8 @@ def run(ctx: common.Ctx):
                 f'{[r["headers"][p] for p in sorted(extra)[:2]]})',
                 dict(r['desc'], kind='unrealizable-' + kind, extra=sorted(extra)[:20]), finding_key=key)
     ctx.coverage['worker_stats'] = {'trypsin-noexc': s1, 'trypsin-exc': s2,
-                                    'lookahead-enzymes': ctx.coverage['worker_stats']}
+                                    'lookahead-enzymes': s3, 'special-codons': s4,
+                                    'nested-in-splicing': s5}
     ctx.assumptions += [
         'PARTIAL: graph construction is not modelled; soundness of the real output is decided per '
         'input by the Lean definition (proved declarative) — not proved for all inputs',
